@@ -86,6 +86,14 @@ HISTORY = {
     "C14-single-clause-match-leaks-scope": "missed by every check at first: nothing but bindings ever followed a shadowing let inside an inner scope; nine kinds of construct (single- and two-clause match, if, loop, block, pattern let, && with a block, index) are now placed inside four kinds of shadowing scope (block, loop body, branch, match arm), followed by reads and writes of the outer variables",
     "C16-find-out-reg-same-operand-and": "missed by C16 (which does not convert hand-built circuits); C10 reports it (enumerated SSA circuits with repeated operands)",
     "C17-pub-marker-not-reset": "missed at first: no program put `pub` in front of a struct, enum or const; four texts with an unused private fn after such an item added",
+    "C01-match-has-prev-match-xor": "missed by C01 at first (C08 caught it): no match of the families had an input matched by three clauses; a program with overlapping tuple and range clauses whose arms assign and can fail added to family A",
+    "C02-unit-array-index-spurious-oob": "missed by every check at first: arrays of zero-width elements were iterated and assigned but never read at an index; a program that reads and writes [(); 3] and [[u8; 0]; 2] at input-dependent indices (in and out of bounds) before a division added to family A",
+    "C03-adder-zero-fast-path-carry-prev": "missed by C03 (single-operator programs by design); C01 and C04 report it (family E)",
+    "C04-merger-zero-key-skip-descending": "missed by every check at first: the sorting network was only explored over distinct key wires; every assignment of {constant 0, constant 1, input 0, input 1} as one-bit key (and of a constant or shared high bit for two-bit keys) to up to 6 elements is now sorted and checked, in C13 and in C04",
+    "C05-array-access-chunks-zero-width": "missed at first: same gap as C02-unit-array-index-spurious-oob (C05 compiles family A, which now indexes arrays of zero-width elements)",
+    "C08-exclusive-range-one-value-rejected": "missed at first: the range-pattern sweep only said when a pattern MUST be refused; a non-empty range with consistent suffixes and end points inside the type must now be accepted (also a range of exactly one value)",
+    "C09-resolve-const-type-inner-array": "missed by C09 (which has no constants); C12 reports it (literal API over nested const-sized arrays)",
+    "C13-sorter-skip-shared-key-wires": "missed by C13 at first (C04 caught it through a family S join): keys never shared wires; two-bit keys whose high bit is a constant or a shared input are now sorted for every assignment of key sources",
     "C17-match-arms-share-scope": "missed at first: UseAfterScope only covered loop variables and block locals; replaced by a reference model of lexical scoping (every use x every name bound elsewhere but not in scope)",
 }
 rows = []
